@@ -90,19 +90,8 @@ def decode_with_events(octets):
     return msg, ev
 
 
-def compare_cursors(parsed, events):
-    """Per-field bit cursors recorded by the hooks against the specification's cursor."""
-    ents = [e for s in parsed['subsets'] for e in s]
-    if len(events) != len(ents):
-        return (('trace', 'events', 'count', ''), '%d primitive events recorded, specification has %d fields' % (len(events), len(ents)))
-    base = parsed['data0']
-    for k, (ev, e) in enumerate(zip(events, ents)):
-        if ev['lab'] != e['lab']:
-            return (('trace', 'event', 'label', ''), 'event %d is %s, specification field %s' % (k, ev['lab'], e['lab']))
-        if ev['p1'] - base != e['p']:
-            return (('trace', 'event', 'cursor', fm94.feature_of(e)),
-                    'event %d (%s): cursor after the field %d, specification %d' % (k, e['lab'], ev['p1'] - base, e['p']))
-    return None
+cmp_narrow = fm94.cmp_narrow
+compare_cursors = fm94.compare_events
 
 
 def validate(run, wd, what):
